@@ -129,6 +129,9 @@ func (m *Machine) RunCase(fnName string, s *Solver, opts Options) CaseResult {
 	}
 	e := NewExplorer(s)
 	e.Params = opts.Params
+	if n := opts.Params["__shards"]; n > 1 {
+		e.Shard, e.Shards, e.ShardDepth = opts.Params["__shard"], n, opts.Params["__shard_depth"]
+	}
 	e.KnownRegions = opts.KnownRegions
 	e.HangIsViolation = opts.HangIsViolation
 	if opts.StepLimit > 0 {
